@@ -408,6 +408,7 @@ theorem childOp_events (k : Kind) (st : St) (op : Op) (hc : childOp op = true) :
     · simp only [ostep]; rw [e]; exact ⟨rfl, rfl, fun e he => by cases he⟩
     · simp only [ostep]; rw [e]
       exact ⟨rfl, rfl, fun e he => by simp only [List.mem_singleton] at he; exact ⟨_, _, he⟩⟩
+  | cclose slot => exact ⟨rfl, rfl, fun e he => by cases he⟩
 
 /-- a child-side event does not touch what the command reader has collected -/
 theorem childOp_inv (cmds : List Cmd) (k : Kind) (st : St) (op : Op) (bytes : Bytes) (hc : childOp op = true)
@@ -429,6 +430,7 @@ theorem childOp_inv (cmds : List Cmd) (k : Kind) (st : St) (op : Op) (bytes : By
     rcases pipeEof_cases k st slot with ⟨e, _⟩ | ⟨out, ws, _, _, e⟩
     · simp only [ostep]; rw [e]; exact hI
     · simp only [ostep]; rw [e]; exact hI
+  | cclose slot => exact hI
 
 theorem ostep_opens (cmds : List Cmd) (k : Kind) (st : St) (op : Op) (tail : Bytes) (hr : st.reading = true)
     (hne : op ≠ .eof) (hI : Inv cmds st (inputOf [op] ++ tail)) :
@@ -450,6 +452,7 @@ theorem ostep_opens (cmds : List Cmd) (k : Kind) (st : St) (op : Op) (tail : Byt
     | exit slot wstat => simp [childOp] at hc
     | reap slot wstat => simp [childOp] at hc
     | peof slot => simp [childOp] at hc
+    | cclose slot => simp [childOp] at hc
 
 /-- after the end of input nothing is opened any more: every event emits reports only -/
 theorem ostep_opens_closed (cmds : List Cmd) (k : Kind) (st : St) (op : Op) (hr : st.reading = false) :
@@ -467,6 +470,7 @@ theorem ostep_opens_closed (cmds : List Cmd) (k : Kind) (st : St) (op : Op) (hr 
     | exit slot wstat => simp [childOp] at hc
     | reap slot wstat => simp [childOp] at hc
     | peof slot => simp [childOp] at hc
+    | cclose slot => simp [childOp] at hc
 
 theorem orun_opens_closed (cmds : List Cmd) (k : Kind) (st : St) (ops : List Op) (hr : st.reading = false)
     (pl : List Nat) (rest : List Ev) :
@@ -497,6 +501,7 @@ theorem orun_plan_closed (k : Kind) (st : St) (ops : List Op) (hr : st.reading =
         | exit slot wstat => simp [childOp] at hc
         | reap slot wstat => simp [childOp] at hc
         | peof slot => simp [childOp] at hc
+        | cclose slot => simp [childOp] at hc
     simp only [orun]
     rw [ih _ h1.2, h1.1]
 
